@@ -186,6 +186,12 @@ def gen_plan(seed, tier, index=0, avoid=()):
         t0_ = round(rng.uniform(0.0, 3.0), 4)
         for k_ in range(rng.choice((300, 1200, 2500))):
             env.append({"t": round(t0_ + k_ * 1e-5, 6), "kind": "sigwinch"})
+    if faulty and rng.random() < 0.06:
+        # a key held down on ^C: several SIGINTs at distinct instants, close enough to fall between two requests
+        t0_ = round(rng.uniform(0.0, 4.0), 4)
+        gap_ = rng.choice((0.0002, 0.004, 0.06))
+        for k_ in range(rng.randint(3, 6)):
+            env.append({"t": round(t0_ + k_ * gap_, 6), "kind": "sigint"})
     for _ in range(nenv):
         t = round(rng.uniform(0.0, 6.0), 4)
         k = rng.random()
@@ -365,7 +371,9 @@ def _candidates(key, mode):
     if not isinstance(key, str):
         return []
     rev = _reverse_tables()
-    out = list(rev.get(mode, {}).get(key, ()))
+    # (which of a sequence's table names a naming mode uses where its own table has none is not prescribed:
+    # for conservation a name stands for whatever either table lists under it)
+    out = list(rev["curtsies"].get(key, ())) + list(rev["curses"].get(key, ()))
     if mode == "curses":
         m = re.fullmatch(r"x([0-9A-F]{2})", key)
         if m:
@@ -427,6 +435,8 @@ class Model:
         self.entered_bounds = {0}        # offsets in `entered` at which a typed key ends
         self.arrived_total = 0
         self.tty_read_total = 0
+        self.bursts = []                 # (start, end) in `entered` of single tty reads of the Input larger than the
+                                         # paste threshold whose keys have not come back yet
 
     def entered_bounds_sorted(self, a, b):
         """typed-key ends e with a < e <= b (offsets in `entered`)"""
@@ -505,7 +515,7 @@ def _execute(p, s, res):
 
     SEv.next_serial = [None]
 
-    def on_tty_read(fd, data, in_request=True):
+    def on_tty_read(fd, data, in_request=True, by_input=True):
         import bisect
         a, base = M.tty_read_total, len(M.entered)
         i = bisect.bisect_right(M.bound_list, a)
@@ -516,15 +526,18 @@ def _execute(p, s, res):
         if in_request:
             M.req_reads.append(len(data))
             M.req_spans.append((base, base + len(data)))
+        if by_input and thr is not None and len(data) > thr:
+            M.bursts.append((base, base + len(data)))
         M.tty_read_total += len(data)
         if M.tty_read_total not in M.boundaries:
             world.probe("char_cut_by_read")
             world.fault("read_boundary_split")
     def tty_read_observer(fd, data):
-        # a read of the tty outside a request is somebody else's (e.g. a window asking for the cursor position
-        # with os.read): what of it belongs to the Input comes back through unget_bytes and is booked there
-        if in_request[0]:
-            on_tty_read(fd, data)
+        # a read of the tty while the window asks for the cursor position is the window's: what of it belongs to
+        # the Input comes back through unget_bytes and is booked there.  Every other read is the Input's own --
+        # in a request or not (an implementation may take type-ahead over when the context is entered)
+        if not in_window_query[0]:
+            on_tty_read(fd, data, in_request[0])
     kernel.on_tty_read = tty_read_observer
     if cfg.get("short_reads"):
         kernel.read_faults[s.fd] = {int(k): ("cap", v) for k, v in cfg["short_reads"].items()}
@@ -608,7 +621,10 @@ def _execute(p, s, res):
     ev_cb = [None]
     sched_cb = [None]
     in_request = [False]
+    in_window_query = [False]
     sentinel_count = [0]
+    idle_jumps = [0]
+    cur_timeout = [0]
 
     def deliverable_now():
         d = []
@@ -652,6 +668,16 @@ def _execute(p, s, res):
         # time had clearly passed before this wait began should have ended the wait
         if not in_request[0] or world.watch.blocked_in != "select":
             return
+        if cur_timeout[0] is None and not world.env and not any(t.state == "blocked" and t.deadline is not None
+                                                                for t in world.threads if t is not world.watch):
+            # a request without time-out, nothing on its way, and only the request's own timer moves the clock:
+            # it waits in slices.  For the workload that is the same as being blocked for good (the user
+            # presses a key at last)
+            idle_jumps[0] += 1
+            if idle_jumps[0] >= 12:
+                idle_jumps[0] = 0
+                world.probe("polling_request_seen_as_idle")
+                on_quiescent()
         late = [w for w, n in M.sched if w + 0.005 < t_from and n in req_sched_at_start[0]]
         if late:
             _violate(res, "blocked_past_due_scheduled_event", -1,
@@ -740,6 +766,9 @@ def _execute(p, s, res):
         sig0 = kernel.sig.delivered
         sel0 = world.probes.get("select_blocked", 0)
         world.log.add("request", si, timeout, deliv)
+        idle_jumps[0] = 0
+        cur_timeout[0] = timeout
+        bursts0 = list(M.bursts)
         in_request[0] = True
         try:
             r = inp.send(timeout)
@@ -747,6 +776,7 @@ def _execute(p, s, res):
             world.probe("keyboardinterrupt_torn_request")
             world.fault("keyboardinterrupt")
             world.log.add("request_torn", si)
+            del M.bursts[:]       # (what a torn request had read stays buffered; how it comes back is not prescribed)
             return
         except (HarnessError, SimAbort, StepCap, Quiescent):
             raise
@@ -757,6 +787,7 @@ def _execute(p, s, res):
                 # an injected I/O error: the request fails, nothing is consumed, nothing may be lost
                 world.probe("request_failed_with_injected_eio")
                 world.log.add("request_eio", si)
+                del M.bursts[:]
                 return
             _violate(res, "request_raised", si, {"exception": "%s: %s" % (type(e).__name__, e), "timeout": timeout,
                                                  "deliverable": deliv})
@@ -793,31 +824,36 @@ def _execute(p, s, res):
             for k in r.events:
                 if not judge_key(k, si, True):
                     return
-            if thr is None or sum(reads) <= thr:
+            live = [(a, b_) for a, b_ in M.bursts if b_ > pos0]
+            if thr is None or (not live and len(M.entered) - pos0 <= thr):
                 # (an implementation may add up what it reads in one go differently -- e.g. read until nothing is
                 # left and compare the total -- but without more than paste_threshold bytes there is no burst)
-                _violate(res, "paste_without_burst", si, {"reads": reads[:4], "paste_threshold": thr})
-            if thr is not None and not cfg["split"] and not world.faults.get("short_read"):
-                # the burst "read in one go" is the first read of this request that exceeded the threshold: every
-                # typed key lying wholly inside it belongs in this paste (a key cut by the end of that read may be
-                # completed now or left for the next request; short reads / split arrivals: conservation only)
-                for (a, b_), n in zip(M.req_spans, reads):
-                    if n > thr:
-                        import bisect
-                        whole = [x for x in M.entered_bounds_sorted(a, b_)]
-                        need = max(whole) if whole else a
-                        if M.pos < need:
-                            _violate(res, "paste_does_not_cover_burst", si,
-                                     {"covered_to": M.pos, "burst": [a, b_], "last_whole_key_ends_at": need})
-                        break
+                _violate(res, "paste_without_burst", si, {"reads": reads[:4], "paste_threshold": thr,
+                                                          "bytes_not_yet_returned": len(M.entered) - pos0})
+            if live and not cfg["split"] and not world.faults.get("short_read"):
+                # the burst "read in one go": every typed key lying wholly inside it belongs in this paste (a key
+                # cut by the end of that read may be completed now or left for the next request; short reads /
+                # split arrivals: conservation only)
+                a, b_ = live[0]
+                whole = [x for x in M.entered_bounds_sorted(a, b_)]
+                need = max(whole) if whole else a
+                if M.pos < need:
+                    _violate(res, "paste_does_not_cover_burst", si,
+                             {"covered_to": M.pos, "burst": [a, b_], "last_whole_key_ends_at": need})
+            M.bursts[:] = [(a, b_) for a, b_ in M.bursts if a >= M.pos]
         elif isinstance(r, (str, bytes)):
             if not judge_key(r, si, False):
                 return
-        if thr is not None and any(n > thr for n in reads) and not isinstance(r, events.PasteEvent):
-            # a request that read a burst hands it out as a paste -- whatever else was deliverable too
-            _violate(res, "burst_not_reported_as_paste", si, {"reads": reads[:4], "paste_threshold": thr,
-                                                               "returned": kind})
-            return
+            # a burst the Input read in one go comes back as ONE paste event -- from the request that read it or,
+            # when that one had something else to return, from the first later request that returns keys: a
+            # plain keypress lying wholly inside such a burst means it is being handed out key by key
+            inside = [(a, b_) for a, b_ in M.bursts if a <= pos0 and M.pos <= b_]
+            if inside:
+                _violate(res, "burst_not_reported_as_paste", si,
+                         {"burst": list(inside[0]), "paste_threshold": thr, "returned": kind,
+                          "key_at": [pos0, M.pos], "read_by_this_request": inside[0] not in bursts0})
+                return
+            M.bursts[:] = [(a, b_) for a, b_ in M.bursts if b_ > M.pos]
         if isinstance(r, (str, bytes, events.PasteEvent)):
             pass
         # ---- events --------------------------------------------------------------------
@@ -897,30 +933,43 @@ def _execute(p, s, res):
                                                             "waited": round(now - start, 9), "returned": kind})
 
     win_holder = []
+    history_cut = [None]
 
     def do_cursor_query(si):
         from curtsies.window import CursorAwareWindow
-        if not win_holder:
-            def hand_back(b):
-                world.log.add("extra_bytes", b)
-                on_tty_read(s.fd, b, False)        # these bytes left the tty queue in stream order ...
-                inp.unget_bytes(b)                 # ... and enter the Input's buffer here
-            win_holder.append(CursorAwareWindow(out_stream=s.out, in_stream=s.inp, extra_bytes_callback=hand_back))
+        def hand_back(b):
+            world.log.add("extra_bytes", b)
+            on_tty_read(s.fd, b, False, False)     # these bytes left the tty queue in stream order ...
+            inp.unget_bytes(b)                     # ... and enter the Input's buffer here
         ahead = len(s.tty.inq)
         world.log.add("cursor_query", si, ahead)
+        in_window_query[0] = True
         try:
+            if not win_holder:
+                # "The context of the CursorAwareWindow object must be entered before calling any of its methods":
+                # entered at its first use (which asks for the cursor position itself) and left when the run ends
+                win = CursorAwareWindow(out_stream=s.out, in_stream=s.inp, extra_bytes_callback=hand_back)
+                win.__enter__()
+                win_holder.append(win)
+                world.probe("window_entered_inside_input")
             pos = win_holder[0].get_cursor_position()
         except KeyboardInterrupt:
             world.log.add("cursor_query_torn", si)
+            history_cut[0] = "cursor query torn by KeyboardInterrupt"
             return
         except (HarnessError, SimAbort, StepCap, Quiescent):
             raise
         except Exception as e:
             if environment_artefact(e):
                 raise HarnessError("stub-environment artefact: %s: %s" % (type(e).__name__, e))
-            # (what the query returns or raises is C18's subject; here it only generates unget_bytes traffic)
+            # what the query returns or raises is C18's subject; here it only generates unget_bytes traffic.  A
+            # query that failed may have left (part of) the terminal's report on the tty, where the Input would
+            # find it as "typed" bytes nobody typed: the history ends here (every request so far was judged)
             world.log.add("cursor_query_raised", si, type(e).__name__)
+            history_cut[0] = "cursor query raised %s" % type(e).__name__
             return
+        finally:
+            in_window_query[0] = False
         world.probe("cursor_query_with_typeahead" if ahead else "cursor_query")
         world.log.add("cursor_query_returned", si, list(pos) if isinstance(pos, tuple) else None)
 
@@ -1061,13 +1110,17 @@ def _execute(p, s, res):
                             world.log.add("cursor_query_skipped_large_typeahead")
                             continue
                         do_cursor_query(si)
+                        if history_cut[0]:
+                            world.probe("history_cut_after_failed_cursor_query")
+                            world.log.add("history_cut", history_cut[0])
+                            break
                     if res["violation"]:
                         break
                 while len(ts_cbs) < cfg["nts"]:
                     make_ts()          # (threads may be waiting for a trigger whose creation step was shrunk away)
                 # ---- drain: everything that went in must come out --------------------------------
                 rounds = 0
-                while not res["violation"]:
+                while not res["violation"] and not history_cut[0]:
                     alive = any(t.state != "done" for t in world.threads[1:] if t is not world.watch)
                     pending = (M.q_events or M.ts_completed or M.sched or len(s.tty.inq) or M.pos < len(M.entered)
                                or world.env or alive)
@@ -1101,7 +1154,7 @@ def _execute(p, s, res):
                         # nothing came out: the app does something else for a moment (a clock that stands
                         # exactly on a scheduled event's time would otherwise never pass it)
                         world.block_until(lambda: False, world.now + 0.01, "sleep")
-                if not res["violation"]:
+                if not res["violation"] and not history_cut[0]:
                     do_send(-9998, 0)
                     do_send(-9999, 0)
             except Quiescent:
@@ -1111,7 +1164,7 @@ def _execute(p, s, res):
                 # the step budget is a property of the harness: hitting it is not a verdict on the library
                 raise HarnessError("step cap exceeded after %d yield points" % world.yields)
             # ---- end of history ----------------------------------------------------------------
-            if not res["violation"] and not aborted:
+            if not res["violation"] and not aborted and not history_cut[0]:
                 for t in world.threads[1:]:
                     if t is world.watch:
                         continue
@@ -1138,6 +1191,14 @@ def _execute(p, s, res):
             kernel.read = orig_read
             kernel.select = orig_select
             try:
+                if win_holder:
+                    in_window_query[0] = True
+                    try:
+                        win_holder[0].__exit__(None, None, None)
+                    except (Quiescent, StepCap, SimAbort, HarnessError):
+                        raise
+                    except Exception as e:
+                        world.log.add("window_exit_raised", type(e).__name__)
                 inp.__exit__(None, None, None)
             except (Quiescent, StepCap, SimAbort):
                 pass
